@@ -348,6 +348,13 @@ impl Engine {
 
     /// Execute one request line; returns the answer line (None for blank lines).
     pub fn exec(&mut self, line: &str) -> Option<String> {
+        watch_begin(line);
+        let r = self.exec_inner(line);
+        watch_end();
+        r
+    }
+
+    fn exec_inner(&mut self, line: &str) -> Option<String> {
         self.line += 1;
         let ws: Vec<&str> = line.split_whitespace().collect();
         if ws.is_empty() {
